@@ -1,6 +1,7 @@
 import Gmx.Lemmas.PerpValue
 import Gmx.Lemmas.FundingBacked
 import Gmx.Props.C12
+import Gmx.Lemmas.Whole
 /-!
 # C08 — market token accounting is conserved and funding payouts stay backed
 
@@ -290,6 +291,78 @@ funding accrues for one day, then the short submits an empty increase and is cre
 claimable short tokens although nothing has been collected yet — the long has not been touched.
 Replayed on the implementation (known finding F-C08). -/
 theorem claim_before_collect_witness : fOutcome = some (0, 0, 0, 10368000) := by rfl
+
+/-! ### whole-market histories (round 3): one step function, the conjunction of the invariants
+
+`PSys.wstep` (`Gmx.Model.Whole`) runs MIXED histories — deposit, withdrawal, swap, new position,
+increase, decrease, liquidation (several positions of several owners, both sides, both collateral
+tokens), clock, funding update, borrowing update, impact distribution — with the functions the
+stateful `perp` engine runs against the implementation (harness bin `whole`, histories ≤ 200 ops,
+oracle recomputing Σ positions independently after every step). `MarketInv` = C07 (open interest
+in USD / tokens and collateral sums per side and collateral token = Σ positions, `size = 0 ↔
+tokens = 0`) ∧ C13 (total borrowing of each side = Σ ⌊size · factor snapshot / UNIT⌋); `IdxLe` =
+C12/C13 monotonicity of the ten indices. Token-ledger conservation (C08) over such histories:
+position operations by `ledger_step_increase` / `ledger_step_decrease` (the same step functions),
+clock / fee-state / distribution operations by `whole_ledger_nonflow_ops`; PARTIAL: for deposit,
+withdrawal and swap the ledger identity (tokens in = growth, tokens out = decrease) is checked by
+the harness oracle only — missing lemma `liquidity_ops_ledger` (from mkt-liq's `DepositFacts` /
+`WithdrawFacts` / `ApplyFacts`). `funding_backed` over whole histories still needs
+`psys_simulates_fundsys` (see above). -/
+
+/-- **every operation of a whole-market history preserves `MarketInv`** (successful or failing). -/
+theorem step_preserves_MarketInv (W U : Nat) (c : PerpCfg) (rc : RateCfg) (s : PSys) (o : WOp) (h : MarketInv U s) :
+    MarketInv U (s.wstep W U c rc o) :=
+  Lem.step_preserves_MarketInv W U c rc s o h
+
+/-- **after any mixed history** the invariant holds (induction on the history). -/
+theorem run_preserves_MarketInv (W U : Nat) (c : PerpCfg) (rc : RateCfg) (ops : List WOp) (s : PSys) (h : MarketInv U s) :
+    MarketInv U (s.wrun W U c rc ops) :=
+  Lem.run_preserves_MarketInv W U c rc ops s h
+
+/-- the invariant holds initially (no positions, empty pools). -/
+theorem MarketInv_init (U : Nat) (cfg : MarketConfig) : MarketInv U ⟨{ cfg := cfg }, []⟩ :=
+  ⟨C07.inv_init_empty cfg, fun il => by cases il <;> rfl⟩
+
+/-- **no operation lowers an index**: funding / claimable funding amounts per size (C12) and
+cumulative borrowing factors (C13) along every whole-market history. -/
+theorem run_indices_monotone (W U : Nat) (c : PerpCfg) (rc : RateCfg) (ops : List WOp) (s : PSys) :
+    IdxLe s.m (s.wrun W U c rc ops).m :=
+  Lem.run_indices_monotone W U c rc ops s
+
+/-- clock, fee-state updates, impact distribution and opening an empty position account move no
+tokens: the accounted holdings are unchanged. -/
+theorem whole_ledger_nonflow_ops (W U : Nat) (c : PerpCfg) (rc : RateCfg) (s : PSys) (o : WOp) (t : Bool)
+    (ho : (∃ n, o = .tick n) ∨ (∃ pr, o = .updFunding pr) ∨ (∃ pr, o = .updBorrowing pr) ∨ o = .distribute ∨ (∃ a b, o = .openPos a b)) :
+    ledger (s.wstep W U c rc o).m t = ledger s.m t := by
+  rcases ho with ⟨n, rfl⟩ | ⟨pr, rfl⟩ | ⟨pr, rfl⟩ | rfl | ⟨a, b, rfl⟩
+  · rfl
+  · simp only [PSys.wstep, wMarketOp, Except.toOption]
+    split
+    · rename_i m' hm
+      split at hm
+      · rename_i hu; cases hm; exact (fee_updates_keep_ledger t).1 hu
+      · cases hm
+    · rfl
+  · simp only [PSys.wstep, wMarketOp, Except.toOption]
+    split
+    · rename_i m' hm
+      split at hm
+      · rename_i hu; cases hm; exact (fee_updates_keep_ledger t).2 hu
+      · cases hm
+    · rfl
+  · simp only [PSys.wstep, wMarketOp]
+    split
+    · rename_i m' hm
+      split at hm
+      · rename_i hd
+        cases hm
+        unfold distributePositionImpact at hd
+        simp only at hd
+        repeat' (split at hd)
+        all_goals first | (cases hd; done) | (cases hd; rfl)
+      · cases hm
+    · rfl
+  · rfl
 
 /-! ### Non-vacuity -/
 example : packFunding 64 (10 ^ 9) 10000 10368000 (20 * 10 ^ 9) 1 true = some 5184000000 := by rfl
